@@ -182,6 +182,33 @@ func c20CheckMask(times []int64, retractMask int, maxDiff time.Duration, resolut
 	return preFP, preWhat, cs, nWM, nDropped
 }
 
+// c20UpstreamWatermarks: "" if inserting an upstream watermark (two values) at any position leaves the output unchanged.
+func c20UpstreamWatermarks(times []int64, maxDiff time.Duration, resolution *time.Duration) string {
+	build := func(src execution.Node) execution.Node { return mustNode(mkMaxDiff(src, maxDiff, resolution)) }
+	var base []stream.Ev
+	for i, ns := range times {
+		base = append(base, stream.Ev{Kind: stream.Rec, Vals: []octosql.Value{octosql.NewInt(int64(i)), octosql.NewTime(c20Time(ns))}})
+	}
+	log0, err0, pan0 := stream.RunSingle(build, base)
+	if err0 != nil || pan0 != nil {
+		return ""
+	}
+	want := strings.Join(stream.LogStrs(log0), " ")
+	for pos := 0; pos <= len(base); pos++ {
+		for _, w := range []int64{90_000_000_000, -5_000_000_000} {
+			evs := append(append(append([]stream.Ev{}, base[:pos]...), stream.Ev{Kind: stream.WM, T: c20Time(w)}), base[pos:]...)
+			log, err, pan := stream.RunSingle(build, evs)
+			if err != nil || pan != nil {
+				return fmt.Sprintf("with an upstream watermark at input position %d: error %v panic %v", pos, err, pan)
+			}
+			if got := strings.Join(stream.LogStrs(log), " "); got != want {
+				return fmt.Sprintf("with an upstream watermark %s inserted at input position %d the node emits [%s], without it [%s]", c20WMStr(c20Time(w)), pos, got, want)
+			}
+		}
+	}
+	return ""
+}
+
 func c20WMStr(t time.Time) string {
 	if t.IsZero() {
 		return "zero-time"
@@ -228,7 +255,7 @@ func init() {
 		}
 		r.Bound = map[string]interface{}{"max_len": maxLen, "times_after_unix_epoch": alpha, "max_diff": []string{"0s", "1s", "2s"},
 			"resolution": []string{"default(absent)", "1s", "2s"}, "sequences": len(seqs), "configs": len(maxDiffs) * len(resolutions)}
-		r.Rule = "every sequence (any order, duplicates) of record times up to the length bound over the alphabet x max_diff x resolution, rows [k=index, ts] with zero event time (and, for short sequences, every choice of which rows are retractions), run on the real max_diff_watermark node; oracle = invariants on the output log aligned by input position: (1) each emitted watermark == floor(max time seen so far, resolution) - max_diff with floor toward minus infinity, (2) strictly increasing, (3) emitted whenever that quantity exceeds the last emitted watermark, (4) record passes iff its time > the last emitted watermark (zero time initially), once, unchanged, event time == time field, not after a watermark of its own input that is >= its time, (5) a second run of the same node instance over the same input emits the same stream; non-trivial = sequence with at least one dropped record and at least one emitted watermark"
+		r.Rule = "every sequence (any order, duplicates) of record times up to the length bound over the alphabet x max_diff x resolution, rows [k=index, ts] with zero event time (and, for short sequences, every choice of which rows are retractions), run on the real max_diff_watermark node; oracle = invariants on the output log aligned by input position: (1) each emitted watermark == floor(max time seen so far, resolution) - max_diff with floor toward minus infinity, (2) strictly increasing, (3) emitted whenever that quantity exceeds the last emitted watermark, (4) record passes iff its time > the last emitted watermark (zero time initially), once, unchanged, event time == time field, not after a watermark of its own input that is >= its time, (5) a second run of the same node instance over the same input emits the same stream, (6) watermarks carried by the input stream itself (inserted at every position, sequences <= 3) do not change the output; non-trivial = sequence with at least one dropped record and at least one emitted watermark"
 		r.Assume("absent resolution means 1s (documented default)", "max_diff < 0 and resolution <= 0 are out of contract and not generated",
 			"the statement is silent about the relative order of a record and the watermark emitted on the same input; only 'record after a watermark >= its time' is judged",
 			"'current watermark' for the pass/drop decision is the last watermark the node actually emitted (so a wrong watermark value is reported once, as a watermark defect)")
@@ -250,6 +277,15 @@ func init() {
 						break
 					}
 				}
+			}
+			// the input stream may itself carry watermarks (a nested max_diff_watermark, a join of watermarked inputs): they are
+			// not the generator's and must not change its output. Differential: the same sequence with an upstream watermark
+			// inserted at every position must give the same output stream (lengths <= 3).
+			if fp == "" && len(s) >= 1 && len(s) <= 3 {
+				if d := c20UpstreamWatermarks(s, md, res); d != "" {
+					fp, what = "upstream-watermark-changes-output", fmt.Sprintf("times %v max_diff=%s: %s", c20TimesStr(s), md, d)
+				}
+				r.Eval(int64(len(s) + 1))
 			}
 			if fp != "" {
 				r.Outcome("violation:" + fp)
